@@ -18,24 +18,39 @@ SPEC = {
     "lean_modules": ["PallasVerif.Props.C09"],
     "required_theorems": ["panic_sites_all_audited", "all_anchored_files_scanned", "peeraddress_bits_fit_u128",
                           "decoded_peeraddress_in_range", "skip_never_out_of_fuel", "vec_anycbor_never_out_of_fuel",
-                          "message_element_loops_never_out_of_fuel"],
+                          "message_element_loops_never_out_of_fuel", "wrappers_never_diverge", "wrapper_leaves_never_diverge",
+                          "plutusdata_decoder_is_total_and_exact", "byron_decoders_never_diverge"],
     "translators": [_panic_sites],
     "extra": _extra,
     "streams": [{"name": "msgfuzz", "quick": 700, "thorough": 40000},
+                {"name": "decfuzz", "quick": 1200, "thorough": 40000},
                 {"name": "artfuzz", "quick": 2500, "thorough": 120000, "timeout": 3000}],
     "rule": "msgfuzz: one case = one generated message of some (protocol, variant) of either stack and 8 (thorough 12) byte strings "
             "derived from its encoding (random bytes, every kind of prefix, two messages back to back / a foreign protocol's message, "
             "1-3 structure-aware edits: bit flip, byte set, truncation at a head, length-field / integer / major-type corruption, "
-            "indefinite-isation, planted break, splice, delete, insert), each through minicbor::decode::<Message>; artfuzz: one case = "
+            "indefinite-isation, planted break, splice, delete, insert), each through minicbor::decode::<Message>; decfuzz: one case = one base "
+            "input harvested from the generators of the cborwrap (C03), pdata (C07), byron (C19) and address (C18) streams, from the "
+            "witness table of fixtures/mutate.rs or from the Byron address vectors, and 7 (thorough 10) mutants of it (truncation at every "
+            "length, structure-aware edits, random bytes), each decoded by the real decoder (pallas-codec wrapper at the registry type, "
+            "PlutusData, ByronAddress::from_bytes / minicbor::decode, Address::from_bytes) and by the Lean model, outcomes compared "
+            "(value rendering or error class); artfuzz: one case = "
             "one artefact (every .block/.tx/.header of test_data, the headers / first transactions / outputs / addresses inside them, "
             "address test vectors, the 203 reject reasons of the localtxsubmission tests, label seeds for every hand-written "
             "node-to-client payload decoder) unmutated + 6 (thorough 10) mutants through MultiEraBlock::decode + probe, MultiEraTx::decode "
             "(+ decode_for_era x7), MultiEraHeader::decode, MultiEraOutput::decode (x7 eras), Address::from_bytes, Address::from_bech32 / from_str / ByronAddress::from_base58 on mutated text, minicbor::decode of "
-            "the payload types; one case in sixteen feeds random byte strings to a random entry point; distinct = sha1 of the op text; non-trivial = the case has at least one accepted and one rejected input",
+            "the payload types (incl. KeepRaw<PlutusData>, DatumOption, conway TransactionOutput); every second mutant starts with a "
+            "structure-aware edit on the parsed CBOR tree, which descends into byte strings holding exactly one item (#6.24 wraps, KeepRaw'd "
+            "sub-items) and repairs the enclosing length heads: drop a break, plant a break, cut the (inner) buffer exactly at an item "
+            "boundary at any depth, definite <-> indefinite at a single site, bytes -> chunked, splice a minimal witness of a hand-written "
+            "decoder branch (tag-102 / compact Constr, bignum tags, bounded-bytes chunks, Nullable, MaybeIndefArray, Set tag 258, cbor-wrap; "
+            "each also one byte short and with a trailing break) over a random item; the first cases splice every witness into the inline "
+            "datum of synthesized outputs and of real post-Alonzo transactions; one case in sixteen feeds random byte strings to a random entry point; distinct = sha1 of the op text; non-trivial = the case has at least one accepted and one rejected input",
     "trusted_base": [
         "network half: Model/NetCodec.lean + Model/NetMsg.lean (hand transcription of the minicbor primitives and of every message "
         "decoder), compared with the real decoders on every msgfuzz input (value, end-of-input, other error)",
-        "ledger half: NOT modelled — catch_unwind around the public decode entry points on mutated artefacts (search, no proof); the Lean "
+        "hand-written ledger decoders inside the model: Model/Minicbor.lean + Model/CborWrappers.lean (C03), Model/PlutusDataDec.lean (C07), "
+        "Model/Byron.lean (C19), Model/Address.lean (C18) — hand transcriptions, compared with the real decoders on every decfuzz input",
+        "rest of the ledger half: NOT modelled — catch_unwind around the public decode entry points on mutated artefacts (search, no proof); the Lean "
         "stream only states the demanded outcome class",
         "lib/scan_panics_c09.py (regex inventory of panic sites in 41 anchored files) + the human audit lib/panic_audit_C09.json",
     ],
@@ -44,8 +59,11 @@ SPEC = {
         "the `relaxed` feature of pallas-crypto (Hash::decode without length check, panics on short input) is off, as in the default build",
         "allocation failure on absurd declared lengths is not a panic in the sense of the property (none was observed: minicbor does not pre-allocate)",
     ],
-    "explanation": "level `other`: theorems cover the panic inventory audit (fail closed), the absence of fuel artefacts in the decoder model and "
-                   "the only arithmetic of the message decoders; the property itself is decided by model/implementation comparison (network) and "
-                   "mutation search (ledger). Self-tests: Hash::decode without the length check (caught by artfuzz panic + new unaudited slice "
-                   "site), `_ => unreachable!()` restored in DRep::decode (caught by both), reordering of match arms in a decoder (quiet).",
+    "explanation": "level `other`: theorems cover the panic inventory audit (fail closed), the absence of fuel artefacts in the decoder models "
+                   "(messages, codec wrappers, Byron addresses; PlutusData is exact: strict parse + tree) and the only arithmetic of the message "
+                   "decoders; the property itself is decided by model/implementation comparison (network messages, wrappers, PlutusData, "
+                   "addresses) and structure-aware mutation search (the derived ledger decoders). Self-tests: Hash::decode without the length check (caught by artfuzz panic + new unaudited slice "
+                   "site), `_ => unreachable!()` restored in DRep::decode (caught by both), reordering of match arms in a decoder (quiet); "
+                   "seeded/C09-a (Constr tag-102 steps past the end of the buffer when the break is missing): artfuzz reports `panic decode tx babbage` "
+                   "with the spliced transaction as replay, decfuzz reports impl-ok / model-err on `p dec`.",
 }
